@@ -71,13 +71,22 @@ theorem C04_later_ops_fail (s : St) (i : Nat) (o : Op) (tmo : Option Nat) (hd : 
 delivered (even after a deadline), with an error if the sender was dropped — never pending -/
 theorem C04_nonempty_mailbox_resolves (s : St) (i : Nat) (o : Op) (ho : s.ops[i]? = some o)
     (hres : o.res = none) (hph : o.phase ≠ .allocated) (hm : o.mail ≠ .empty) :
-    ∃ r, step s (.poll i) = some ({ s with ops := s.ops.set i { o with res := some r } }, .res (some r)) ∧
+    ∃ r s', step s (.poll i) = some (s', .res (some r)) ∧ s'.ops = s.ops.set i { o with res := some r } ∧
       (∀ f, o.mail = .frame f → r = .frame f) ∧ (o.mail = .ack → r = .ack) ∧ (o.mail = .dropped → r = .recvErr) := by
   cases hmail : o.mail with
   | empty => exact absurd hmail hm
-  | ack => exact ⟨.ack, by simp [step, ho, hres, hph, hmail], by simp, by simp, by simp⟩
-  | frame f => exact ⟨.frame f, by simp [step, ho, hres, hph, hmail], by simp, by simp, by simp⟩
-  | dropped => exact ⟨.recvErr, by simp [step, ho, hres, hph, hmail], by simp, by simp, by simp⟩
+  | ack =>
+    refine ⟨.ack, ({ s with ops := s.ops.set i { o with res := some .ack } } : St), ?_, rfl, by simp, by simp, by simp⟩
+    simp [step, ho, hres, hph, hmail]
+  | frame f =>
+    refine ⟨.frame f, ({ s with ops := s.ops.set i { o with res := some (.frame f) } } : St), ?_, rfl,
+      by simp, by simp, by simp⟩
+    simp [step, ho, hres, hph, hmail]
+  | dropped =>
+    refine ⟨.recvErr, ({ s with
+        ops := s.ops.set i { o with res := some .recvErr }
+        chans := dropRxOf s.chans o.chan } : St), ?_, rfl, by simp, by simp, by simp⟩
+    simp [step, ho, hres, hph, hmail]
 
 /-- a stream whose channel has no sender left gets its queued items and then `EndOfStream` -/
 theorem C04_closed_channel_ends (s : St) (c : Nat) (ch : Chan) (dl : Option Nat) (hc : s.chans[c]? = some ch)
